@@ -386,9 +386,12 @@ def battery(est, model, hist, heavy, labs):
         before = snapshot(est)
         a = outcome(lambda: fn(est, i1))
         after = snapshot(est)
-        if before != after:
-            changed = [k for k in after if before.get(k) != after.get(k)] + [k for k in before if k not in after]
+        # private attributes (leading underscore) may hold caches: they are not part of the registered state, and a stale cache
+        # shows up as a disagreement with the fresh twin; everything else must be byte-identical and no public attribute may appear
+        changed = [k for k in after if before.get(k) != after.get(k) and not k.startswith("_")] + [k for k in before if k not in after]
+        if changed:
             raise Violation(f"purity:{name}:estimator-mutated", f"after {hist}: query {name} changed estimator attributes {changed}")
+        before = after
         for k, v in inputs.items():
             if v is not None:
                 check(np.array_equal(i1[k], v), f"purity:{name}:input-mutated", f"after {hist}: query {name} modified the caller's array '{k}'")
